@@ -27,10 +27,54 @@ def class_src(name, field_lines, opts=None, indent=''):
     return src
 
 
+AMBIENT = """
+class AmbientLittle(Packet):
+    __bisturi__ = {'endianness': 'little'}
+    ua = Int(1)
+    ub = Int(2)
+    uc = Int(4)
+    ud = Int(8)
+    a = Int(1, signed=True)
+    b = Int(2, signed=True)
+    c = Int(4, signed=True)
+    d = Int(8, signed=True)
+    e = Int(3, signed=True)
+    f = Data(2)
+    g = Bits(4)
+    h = Bits(12)
+
+
+class AmbientBig(Packet):
+    a = Int(1)
+    b = Int(2)
+    c = Int(4)
+    d = Int(8)
+    n = Int(1)
+    l = Int(2, endianness='little').repeated(n)
+    o = Int(2, signed=True, endianness='little').when(n)
+    m = Data(until_marker=b'\\x00')
+"""
+_ambient = [None]
+
+
+def ambient():
+    """A real program holds many packet classes: a worker first defines (and uses once) two classes that cover
+    every primitive width in little-endian signed and big-endian unsigned form, so that process-wide state a
+    field kind may keep (caches keyed too coarsely, first-one-wins tables) is already populated - with the
+    OTHER byte order / signedness than most classes under test use."""
+    if _ambient[0] is None:
+        _ambient[0] = common.Scratch()
+        m = _ambient[0].define(HEADER + AMBIENT)
+        m.AmbientLittle.unpack(bytes(range(37))).pack()
+        m.AmbientBig.unpack(bytes([1, 0, 2, 0, 0, 0, 3, 0, 0, 0, 0, 0, 0, 0, 4, 1, 5, 6, 7, 8, 65, 0])).pack()
+    return _ambient[0]
+
+
 class World:
     """A scratch directory plus the modules defined in it; dispose() forgets everything."""
 
     def __init__(self):
+        ambient()
         self.scratch = common.Scratch()
 
     def module(self, body, header=HEADER):
